@@ -114,6 +114,36 @@ func main() {
 			}
 		}
 	}
+	// probes that carry further request headers a generic content helper would react to (conditional and range
+	// requests, content negotiation, connection options): the answer must still be 200 "OK" (after seeded change C15-K)
+	extras := [][][2]string{
+		{{"Range", "bytes=0-0"}}, {{"Range", "bytes=1-"}}, {{"Range", "bytes=7-"}}, {{"Range", "bytes=-1"}}, {{"Range", "bytes=0-0,1-1"}},
+		{{"If-None-Match", "*"}}, {{"If-None-Match", `"v1"`}}, {{"If-Match", "*"}}, {{"If-Match", `"v1"`}},
+		{{"If-Modified-Since", "Mon, 02 Jan 2006 15:04:05 GMT"}}, {{"If-Modified-Since", "Fri, 01 Jan 2100 00:00:00 GMT"}},
+		{{"If-Unmodified-Since", "Mon, 02 Jan 2006 15:04:05 GMT"}}, {{"If-Range", `"v1"`}, {"Range", "bytes=0-0"}},
+		{{"Accept-Encoding", "gzip"}}, {{"Accept", "application/json"}}, {{"Accept", "image/png;q=1, */*;q=0"}},
+		{{"Cache-Control", "only-if-cached"}}, {{"Content-Type", "application/json"}}, {{"X-Forwarded-For", "1.2.3.4"}},
+		{{"Authorization", "Bearer x"}}, {{"Cookie", "a=b"}}, {{"Origin", "https://o.example"}, {"Access-Control-Request-Method", "GET"}},
+	}
+	for _, flag := range []string{"on", "default"} {
+		for _, proto := range []string{"http/1.1", "h2"} {
+			for ei, ex := range extras {
+				for _, m := range []string{"GET", "HEAD", "POST", "OPTIONS"} {
+					hs := [][2]string{{"User-Agent", "kube-probe/1.30"}}
+					if ei%2 == 1 {
+						hs = append(append([][2]string{}, ex...), hs...)
+					} else {
+						hs = append(hs, ex...)
+					}
+					c := tcase{Flag: true, Proto: proto, Method: m, Path: []string{"/", "/healthz", "/index.html"}[ei%3], Headers: hs, Family: "probe-with-extras:" + flag}
+					if m == "POST" {
+						c.Body = "probe-body"
+					}
+					cases = append(cases, c)
+				}
+			}
+		}
+	}
 	rng := run.Rand(15)
 	nr := run.Pick(4000, 60000)
 	for i := 0; i < nr; i++ {
@@ -280,7 +310,7 @@ func main() {
 			}
 			fmt.Fprintf(tc, "%s %s HTTP/1.1\r\nHost: front.example\r\nUser-Agent: %s\r\n%s: %s\r\n%s", c.Method, c.Path, ua, rig.TagHeader, tag, body)
 			be.Wait(tag, 5*time.Second) // the request is at the backend, which has not answered yet
-			tc.CloseWrite()                // close_notify + FIN: the client has nothing more to say but keeps reading
+			tc.CloseWrite()             // close_notify + FIN: the client has nothing more to say but keeps reading
 			resp, rerr := http.ReadResponse(bufio.NewReader(tc), &http.Request{Method: c.Method})
 			var rb []byte
 			if rerr == nil {
